@@ -20,12 +20,17 @@ TLC_ENV = {"JAVA_TOOL_OPTIONS": "-XX:ParallelGCThreads=2"}
 JOBS = max(1, min(4, int(os.environ.get("VERIF_JOBS", "4"))))
 
 
-def tlc_cases(ctx, module, cfg, actions, on_case, workers=4, timeout=3000, env=None, heap="8g"):
+def tlc_cases(ctx, module, cfg, actions, on_case, workers=4, timeout=3000, env=None, heap="8g", coverage=True, taken=None):
     """Runs TLC exhaustively on module/cfg; every emitted JSON line goes to on_case(dict).
-    `actions`: names that must have been taken at least once (vacuity guard).  Returns TlcResult."""
+    `actions`: names that must have been taken at least once (vacuity guard).  With coverage=False (TLC's
+    coverage instrumentation triples the run time of evaluation-heavy models) the caller supplies taken():
+    {action: number of emitted cases of that action}, counted from what the actions themselves emitted.
+    Returns TlcResult."""
     e = dict(TLC_ENV)
     e.update(env or {})
-    res = run_tlc(module, cfg, ctx.rundir, on_edge=on_case, workers=workers, timeout=timeout, env=e, heap=heap)
+    res = run_tlc(module, cfg, ctx.rundir, on_edge=on_case, workers=workers, timeout=timeout, env=e, heap=heap, coverage=coverage)
+    if not coverage:
+        res.coverage = {a: (n, n) for a, n in (taken() if taken else {}).items()}
     ctx.add("states", res.distinct)
     ctx.add("transitions", res.generated)
     ctx.add("cases_emitted", res.edges)
@@ -63,10 +68,11 @@ class Case:
         return "\n".join(out)
 
 
-def run_cases(ctx, exe, hargs, cases, keyfn, tag, env=None, chunk=20000, max_keys=60, what_fn=None, recorder=None):
+def run_cases(ctx, exe, hargs, cases, keyfn, tag, env=None, chunk=20000, max_keys=60, what_fn=None, recorder=None, on_fail=None):
     """Runs the cases through the harness (parallel, crash containment).  A crash/hang inside step k of a
     script hides steps k+1..: the remainder is re-run as a script of its own until every step was executed.
-    keyfn(case, stepindex, fail) -> finding key.  recorder(case, stepindex, ret_token) receives the values of
+    keyfn(case, stepindex, fail) -> finding key.  on_fail(case, stepindex, fail) -> True when the caller deals with
+    that failure itself.  recorder(case, stepindex, ret_token) receives the values of
     steps whose expected value is '?' (record mode).  Returns (nscripts, nsteps, nfailed_steps)."""
     t0 = time.time()
     nscripts = nsteps = nfail = nrerun = 0
@@ -108,6 +114,10 @@ def run_cases(ctx, exe, hargs, cases, keyfn, tag, env=None, chunk=20000, max_key
                     continue
                 seen_fail.add((c.sid, at, f.kind))
                 nfail += 1
+                if on_fail is not None and on_fail(c, at, f):      # handled by the caller (e.g. localised by a finer re-run)
+                    if f.kind in ("crash", "hang", "exit", "inv", "state") and at + 1 < len(c.steps):
+                        again.append((c, at + 1))
+                    continue
                 key = keyfn(c, at, f)
                 op, args, exp, _ = c.steps[at]
                 what = (what_fn(c, at, f) if what_fn else
